@@ -4827,8 +4827,15 @@ class Symbol:
             or self._user_value is not None
             or self.choice
             or self._sdkconfig_value is None
-            or self.resolve_vis() == 0
         ):
+            return
+
+        # 'dependencies' also lists the conditions of this symbol's own select/imply statements, which may lead back
+        # here without being a dependency loop (A: "select T if C", C: "depends on A"). Mark the symbol while its
+        # dependencies are walked so that the walk terminates.
+        self._defaults_resolved = True
+        if self.resolve_vis() == 0:
+            self._defaults_resolved = False
             return
 
         for sc in self.dependencies:
@@ -6054,7 +6061,13 @@ class Choice:
         # if choice has a user selection but some of its symbols have default value,
         # "user-set" those symbols manually.
         # As the choice will become fully user-set, we will skip the rest of the "default value" logic.
-        if self._defaults_resolved or self.resolve_vis() == 0:
+        if self._defaults_resolved:
+            return
+
+        # See Symbol.resolve_defaults(): the walk over 'dependencies' may lead back here
+        self._defaults_resolved = True
+        if self.resolve_vis() == 0:
+            self._defaults_resolved = False
             return
 
         if self._user_selection is not None:
